@@ -60,6 +60,7 @@ def unit(args: dict) -> dict:
         built = pipeline.build_all(specs)
         res, edges = pipeline.model_check(built, os.path.join(wd, "mc"), engine="sync", gvals=args["gvals"],
                                           workers=args.get("tlc_workers", 2), props=("C05",),
+                                          with_batch=args.get("with_batch", False),
                                           max_states=args.get("max_states", 10 ** 8))
         out["states"], out["transitions"], out["edges"] = res.distinct_states, res.states_generated, len(edges)
         if not res.finished or res.returncode != 0:
@@ -71,14 +72,17 @@ def unit(args: dict) -> dict:
         fps = {i: _fingerprint(b.machine) for i, b in enumerate(built)}
         for e in edges:
             k = state_key(e.mi, e.frm)
-            if k not in paths or e.step["op"] not in ("start", "send"):
+            if k not in paths or e.step["op"] not in ("start", "send", "batch"):
                 continue
             b = built[e.mi - 1]
             steps = [p.step for p in paths[k]] + [e.step]
             rs = rp.run_sync(b, steps)
             ra = rp.run_async(b, steps)
             b.ctl.reset()
-            rpu = rp.run_pure(b, steps)
+            is_batch = e.step["op"] == "batch"
+            rpu = rp.run_pure(b, steps[:-1] if is_batch else steps)
+            if is_batch:
+                rpu = rpu + [rs[-1]]      # the pure API has no batch call: compared on single events only
             pure_ran = [o for o in b.ctl.log if o[0] == "act"]
             if len(rs) < len(steps) or len(ra) < len(steps) or len(rpu) < len(steps):
                 continue  # divergent chain cut short on one side; C13 decides those
@@ -104,6 +108,7 @@ def unit(args: dict) -> dict:
                 clauses.append("sync_async_action_order")
             elif pre_sa and _acts(ls) != _acts(la):
                 clauses.append("sync_async_action_event")
+            pre_sp = pre_sp and not is_batch
             if pre_sp and not same(ps, pp):
                 clauses.append("sync_pure_state")
             if pre_sp and _ax(ls) != [o[1] for o in lp]:
@@ -158,8 +163,8 @@ def run(prop: str, tier: str, seed: int) -> int:
     specs = sorted(families(tier, seed), key=_size, reverse=True)
     groups, small = [], []
     for sp in specs:
-        if _size(sp) >= 400:
-            groups.append([sp])
+        if _size(sp) >= 400 or sp.family == "R":
+            groups.append([sp])      # R machines also explore send_events batches: one per unit
         else:
             small.append(sp)
             if len(small) == 4:
@@ -167,7 +172,8 @@ def run(prop: str, tier: str, seed: int) -> int:
                 small = []
     if small:
         groups.append(small)
-    units = [{"specs": g, "gvals": ("T", "F"), "tlc_workers": 2, "max_states": 150 if q else 10 ** 8} for g in groups]
+    units = [{"specs": g, "gvals": ("T", "F"), "tlc_workers": 2, "max_states": 150 if q else 10 ** 8,
+              "with_batch": all(sp.family == "R" for sp in g)} for g in groups]
     if NPROC > 1 and len(units) > 1:
         import concurrent.futures as cf
 
